@@ -988,7 +988,9 @@ class World:
                 raise self.viol("C14.1 duplicate-origin", "C14.1:origin", "duplicate differs in origin at some position")
             for f in U.PROP_FIELDS[cname(a)]:
                 va, vb = getattr(a, f.name), getattr(b, f.name)
-                if U.canon(va) != U.canon(vb):
+                if U.canon(va) != U.canon(vb) or (f.vt == "anybox" and not (va is vb or va == vb)):
+                    # (Any-typed values: "equal property values" is the values' own ==, which for objects without __eq__
+                    # is identity)
                     raise self.viol(
                         "C14.2 duplicate-property-value",
                         f"C14.2:{'noncompare' if not f.compare else 'compare'}:{'noninit' if not f.init else 'init'}",
@@ -1712,6 +1714,15 @@ class Gen:
             return self.g_ser(actor)
         return {"op": "peer_roundtrip", "p": r.choice(names)}
 
+    def g_twin_classes(self, actor: str) -> dict[str, Any] | None:
+        if getattr(self, "_twins_done", False):
+            return None
+        self._twins_done = True
+        return {"op": "twin_classes", "v": self.value("str")}
+
+    def g_define_late(self, actor: str) -> dict[str, Any] | None:
+        return None if "Late" in U.CLS else {"op": "define_late"}
+
     def g_set_config(self, actor: str) -> dict[str, Any] | None:
         r = self.r("setcfg")
         return {"op": "set_config", "rtc": r.random() < 0.5, "trace": r.random() < 0.3}
@@ -1939,7 +1950,7 @@ def make_config(rseed: int, prop: str, tier: str, faults: bool) -> dict[str, Any
         extra.append("EnumBag")
         if r.random() < 0.2:
             leafs += ["EnumBag", "EnumBag"]
-    if prop == "C10":
+    if prop in ("C10", "C14"):
         extra.append("AnyBox")
         if r.random() < 0.2:
             leafs += ["AnyBox", "AnyBox"]
@@ -2000,6 +2011,10 @@ def make_config(rseed: int, prop: str, tier: str, faults: bool) -> dict[str, Any
             weights[k] *= 3
     if not any(weights.get(k, 0) > 0 for k in ("drop", "detach_self", "detach", "replace")):
         weights["drop"] = 2
+    if prop in ("C03", "C10", "C01") and r.random() < 0.25:
+        weights["define_late"] = 0.6
+    if prop == "C01" and r.random() < 0.15:
+        weights["twin_classes"] = 1.0
     if rtc and r.random() < 0.4:
         weights["set_config"] = 1.5  # only in runs whose values are well-typed throughout
     gcmode = "defer" if (prop == "C03" and r.random() < 0.15) else "exact"
@@ -2675,6 +2690,33 @@ def op_peer_source_cycles(self: World, op: dict[str, Any]) -> str:
                 "C04.9:source-cycles",
                 f"a document written with index-based sources {b['src']} came back, after its sources had been loaded into a cleared table, attached to {[x[1] for x in seen]} instead of {[x[1] for x in want]}",
             )
+    return "ok"
+
+
+@_w2("op_twin_classes")
+def op_twin_classes(self: World, op: dict[str, Any]) -> str:
+    """'Instances of the same class': a subclass that carries its base class' NAME is another class (C01)."""
+    B, D = U.same_named_pair()
+    b, d = B(v=op.get("v", "x")), D(v=op.get("v", "x"))
+    bad = b.is_equal(d) or d.is_equal(b)
+    b.detach()
+    d.detach()
+    del b, d
+    self.stats.probes["same_named_subclass_probed"] += 1
+    if bad and self.on("C01"):
+        raise self.viol("C01.4 is_equal-disagrees-with-structure", "C01.4:same-named-subclass", "is_equal() is True between an instance of a class and an instance of its same-named subclass")
+    return "ok"
+
+
+@_w2("op_define_late")
+def op_define_late(self: World, op: dict[str, Any]) -> str:
+    """A node class comes into existence in the middle of the run (a plugin imported late), after lookups through its
+    base classes have already been made."""
+    if "Late" in U.CLS:
+        raise SkipOp("defined")
+    U.define_late()
+    self.cfg["leaf_classes"] = list(self.cfg["leaf_classes"]) + ["Late", "Late"]
+    self.stats.probes["class_defined_mid_run"] += 1
     return "ok"
 
 
